@@ -152,7 +152,7 @@ def build_items(tier: str, seed: int):
                 continue
             cfgs = {k: v for k, v in (rc["configs"] or {}).items() if k in ("templater",)}
             items.append((rc["sql"], core.get("dialect", "ansi"), tmpl, f"<rule {rc['id']}>", f"r{i}", {"configs": cfgs} if cfgs else None))
-    vctx = {"templater": {"jinja": {"context": {"x": 1, "t": "tt", "r": [1, 2], "y": 0}}}}
+    vctx = c07.VCTX
     for i, text in enumerate(c07.gen_variant_templates(rnd, 60 if quick else 800)):
         items.append((text, "ansi", "jinja", f"<gen {i}>", f"g{i}", {"configs": vctx}))
     return items
